@@ -19,6 +19,7 @@ EXPLANATION = (
     "whose derivative is defined at zero rows (sibling cross-check; qr_r admitted while its custom rule has no division/solve).  "
     "(4) Gram consistency of the custom triangularisation rule, R^T R_dot + R_dot^T R = M^T M_dot + M_dot^T M, decided by rewriting in a free matrix-word algebra "
     "(Q R -> M, Q^T Q -> I): the second necessary condition of a true tangent, and the reason covariances differentiate exactly."
+    "  (5) Every loss_* constructor's default solve for Bayes' rule has a reverse-mode derivative wherever it has a value (known finding: the time-series loss defaults to an SVD least-squares solve)."
 )
 LEVEL = "other"
 TECHNIQUE = "abstract interpretation of custom AD rules with a matrix-structure lattice and a free matrix-word algebra with rewriting; syntactic dominance + interpretation of flag-guarded stop_gradient sites; primitive-table check of zero-differentiability with sibling cross-check"
